@@ -129,7 +129,8 @@ func (vc *FuncVC) doAppend(st *State, fr *Frame, instr ssa.Instruction, cc *ssa.
 	// monitor rule on append (ghost mirrors of accumulated slices)
 	for _, p := range []*State{st, s2} {
 		if len(p.frames) == 1 {
-			if r := vc.findRule("call", "builtin.append"); r != nil {
+			tn := callTargetName(cc)
+			if r := vc.findRule("call", tn, "builtin.append"); r != nil {
 				res := p.top().env[instr.(ssa.Value)]
 				vc.ruleRequires(p, r, "builtin.append", args)
 				vc.ruleEffects(p, r, "builtin.append", args, []any{res})
@@ -369,11 +370,18 @@ func (vc *FuncVC) checkMapWrite(st *State, fr *Frame, mv ssa.Value, m V, instr s
 // ---------------------------------------------------------------- channels (T3)
 
 func (vc *FuncVC) chanInit(st *State, ref V, size V) {
-	st.ghost["chancap:"+ref.T] = V{size.T, SInt, nil}
+	key := vc.chanArr(st, "chancap")
+	st.heapSet(key, arraySort(SInt, SInt), sto(st.heap[key], ref.T, size.T))
+	ck := vc.chanArr(st, "closed")
+	st.heapSet(ck, arraySort(SInt, SInt), sto(st.heap[ck], ref.T, "0"))
 }
 
 func (vc *FuncVC) chanArr(st *State, kind string) string {
 	key := kind + "@chan"
+	if kind == "closed" || kind == "chancap" {
+		st.heapGet(key, arraySort(SInt, SInt)) // symbolic at entry: channels of other objects may be closed already
+		return key
+	}
 	if _, ok := st.heap[key]; !ok {
 		st.heap[key] = zeroIntArr()
 		vc.heapSorts[key] = arraySort(SInt, SInt)
